@@ -213,6 +213,12 @@ func errorReport(c *an.Ctx, s *sched, rule string) {
 			if !ok || !isGraphErrorAddr(sto.Addr) {
 				return
 			}
+			// (an explicit zero value in the literal that builds the graph is initialisation, not a report)
+			if fa, ok := sto.Addr.(*ssa.FieldAddr); ok && an.IsNilConst(sto.Val) {
+				if fresh, copied := an.FreshBase(fa.X); fresh && !copied {
+					return
+				}
+			}
 			n++
 			inBody := false
 			for _, b := range an.WithAnon(s.body) {
@@ -436,6 +442,12 @@ func failureIsLocal(c *an.Ctx, s *sched, rule string) {
 					n++
 					c.Check(fn == s.cancel && name == "sync/atomic.StoreInt32", rule, an.Short(fn)+":write(cancelled)", x.Pos(), "cancel flag stored atomically by Scheduler.Cancel", "cancel flag written by "+name+" in "+an.Short(fn))
 				case *ssa.Store:
+					// (a constant in the literal that builds the scheduler: nobody else can see the object yet)
+					if _, isConst := x.Val.(*ssa.Const); isConst {
+						if fresh, copied := an.FreshBase(fa.X); fresh && !copied {
+							continue
+						}
+					}
 					n++
 					c.Bad(rule, an.Short(fn)+":write(cancelled)", x.Pos(), "cancel flag written non-atomically")
 				}
